@@ -193,6 +193,8 @@ func generateRegexMatch(w io.Writer, lexerName, name, pattern string) error {
 		fmt.Fprintf(w, "}\n")
 		return nil
 	}
+	fmt.Fprintf(w, "start := p\n")
+	fmt.Fprintf(w, "_ = start\n")
 	for _, re := range flattened {
 		if exists(re) {
 			continue
@@ -306,15 +308,13 @@ func generateRegexMatch(w io.Writer, lexerName, name, pattern string) error {
 		case syntax.OpWordBoundary, syntax.OpNoWordBoundary,
 			syntax.OpBeginText, syntax.OpEndText,
 			syntax.OpBeginLine, syntax.OpEndLine:
+			// The runtime lexer matches each rule against the remaining input only, so
+			// text before the start of the token is not visible to anchors.
 			fmt.Fprintf(w, "var l, u rune = -1, -1\n")
-			fmt.Fprintf(w, "if p == 0 {\n")
-			fmt.Fprintf(w, "  if p < len(s) {\n")
-			decodeRune(w, "0", "u", "_")
-			fmt.Fprintf(w, "  }\n")
-			fmt.Fprintf(w, "} else if p == len(s) {\n")
-			fmt.Fprintf(w, "  l, _ = utf8.DecodeLastRuneInString(s)\n")
-			fmt.Fprintf(w, "} else {\n")
-			fmt.Fprintf(w, "  l, _ = utf8.DecodeLastRuneInString(s[0:p])\n")
+			fmt.Fprintf(w, "if p > start {\n")
+			fmt.Fprintf(w, "  l, _ = utf8.DecodeLastRuneInString(s[start:p])\n")
+			fmt.Fprintf(w, "}\n")
+			fmt.Fprintf(w, "if p < len(s) {\n")
 			decodeRune(w, "p", "u", "_")
 			fmt.Fprintf(w, "}\n")
 			fmt.Fprintf(w, "op := syntax.EmptyOpContext(l, u)\n")
